@@ -2,7 +2,7 @@
    Model: BWStore.Lookup (the ten lookups of storage/memory/memory.go + Triples(), one parametrised function);
    Spec:  BWStore.LookupSpec.  [lookup] is the behaviour of the working tree (after fix F6: CheckGlobalTimeBounds
    compares kinds); [lookup_v legacy] is the behaviour before the fix and is refuted below. *)
-From Coq Require Import List NArith ZArith Bool.
+From Coq Require Import List NArith ZArith Bool Permutation.
 Import ListNotations.
 From BWStore Require Import AMap Store StoreSpec StoreProofs Lookup LookupSpec PageProofs LookupProofs LookupMain.
 
@@ -46,6 +46,29 @@ Theorem C02_lookup_is_scan_inv : forall g q, GInv g ->
   lookup q default_lo g = LOk (map (q_proj q) (filter (matches q) (listing g))).
 Proof. exact lookup_default_is_scan. Qed.
 Print Assumptions C02_lookup_is_scan_inv.
+
+(* as multisets, for every reachable graph and WITHOUT any hypothesis on the rank (the order of Triple.String()) *)
+Theorem C02_lookup_is_scan_multiset : forall ops h g q, graph_of (run ops) h = Some g ->
+  exists l, lookup q default_lo g = LOk l /\
+            Permutation l (map (q_proj q) (filter (matches q) (listing g))).
+Proof. intros ops h g q Hg. apply lookup_default_perm. eapply GInv_reachable; eauto. Qed.
+Print Assumptions C02_lookup_is_scan_multiset.
+
+(* history independence: two reachable graphs (of any two histories) holding the same set answer every lookup, with
+   every options value, identically *)
+Theorem C02_history_independent : forall U ops1 h1 g1 ops2 h2 g2 q lo,
+  (forall a b, In a U -> In b U -> trank a = trank b -> a = b) ->
+  (forall o t, In o ops1 -> In t (match o with OAdd _ ts => ts | _ => [] end) -> In t U) ->
+  graph_of (run ops1) h1 = Some g1 -> graph_of (run ops2) h2 = Some g2 ->
+  (forall k, aget tkey_eqb k (idx g1) = aget tkey_eqb k (idx g2)) ->
+  lookup q lo g1 = lookup q lo g2.
+Proof.
+  intros U ops1 h1 g1 ops2 h2 g2 q lo Hf Hw Hg1 Hg2 Hsame. apply lookup_history_independent; auto.
+  - eapply GInv_reachable; eauto.
+  - eapply GInv_reachable; eauto.
+  - eapply rank_inj_reachable; eauto.
+Qed.
+Print Assumptions C02_history_independent.
 
 (* one result per stored matching triple: the results are in bijection (by position) with the matching members of
    the listing, and the listing holds each stored triple once *)
